@@ -89,17 +89,56 @@ Shifted(exp0, k, p) ==
   [exp0 EXCEPT !.src = SubSeq(@, k+1, Len(@)),
                !.items = [m \in 1..Len(exp0.items) |->
                   IF exp0.items[m].t \in {"c","f","g"} THEN [exp0.items[m] EXCEPT !.lo = (@ + p) - k, !.hi = (@ + p) - k] ELSE exp0.items[m]]]
+(***************************************************************************)
+(* C08: error marks                                                        *)
+(***************************************************************************)
+MarkWord == <<"L","A","T","E","X","X","X","E","R","R","O","R">>
+MarkStart == <<"L","A","T","E","X","X">>
+C08(exp, plain, map, diags) ==
+  LET full == {j \in 1..Len(plain) : StartsWith(plain, j, MarkWord)}
+      part == {j \in 1..Len(plain) : StartsWith(plain, j, MarkStart)} IN
+  IF exp.fault = <<>> THEN
+     (IF Len(diags) > 0 THEN "diagnostic-on-well-formed-document"
+      ELSE IF part # {} THEN "mark-on-well-formed-document" ELSE "ok")
+  ELSE LET f == exp.fault[1].f
+           lost == {m \in 1..Len(exp.items) : exp.items[m].t = "c" /\ exp.items[m].lo > exp.fault[1].end
+                       /\ ~\E j \in 1..Len(plain) : plain[j] = exp.items[m].ch /\ map[j] = exp.items[m].lo} IN
+     IF Len(diags) = 0 THEN (IF part # {} THEN "mark-without-diagnostic" ELSE "fault-without-diagnostic")
+     ELSE IF diags[1] # <<LineOf(exp.src, f), ColOf(exp.src, f)>>
+          THEN "diagnostic-at-" \o ToString(diags[1][1]) \o ":" \o ToString(diags[1][2]) \o "-expected-" \o ToString(LineOf(exp.src, f)) \o ":" \o ToString(ColOf(exp.src, f))
+     ELSE IF full = {} THEN "complete-mark-missing"
+     ELSE IF map[Min(full)] # f + 1 THEN "mark-mapped-to-" \o ToString(map[Min(full)]) \o "-expected-" \o ToString(f + 1)
+     ELSE IF lost # {} THEN "text-after-fault-lost:" \o exp.items[Min(lost)].ch
+     ELSE "ok"
+
+(***************************************************************************)
+(* C19: the unknowns list                                                  *)
+(***************************************************************************)
+RECURSIVE SplitNL(_, _, _)
+SplitNL(s, k, acc) == IF k > Len(s) THEN <<acc>> ELSE IF s[k] = NL THEN <<acc>> \o SplitNL(s, k+1, <<>>) ELSE SplitNL(s, k+1, Append(acc, s[k]))
+C19(exp, plain) ==
+  LET ls == SplitNL(plain, 1, <<>>) IN
+  IF Len(plain) = 0 \/ plain[Len(plain)] # NL THEN "list-not-terminated-by-line-break"
+  ELSE LET names == SelectSeq(SubSeq(ls, 1, Len(ls) - 1), LAMBDA l : l # <<>>) IN
+       IF names = exp.unk THEN "ok"
+       ELSE IF \E k \in 1..Len(names) : ~\E m \in 1..Len(exp.unk) : exp.unk[m] = names[k] THEN "lists-a-name-that-is-not-an-undeclared-name-used-in-text"
+       ELSE IF \E m \in 1..Len(exp.unk) : ~\E k \in 1..Len(names) : exp.unk[m] = names[k] THEN "undeclared-name-missing"
+       ELSE "order-or-multiplicity-differs"
+
 Judge(r) ==
-  LET exp0 == Ref(r.doc)
+  LET exp0 == RefMode(r.doc, IF r.extr THEN "extr" ELSE "normal")
       k == Len(ConcAll(SubSeq(r.doc, 1, r.ndef)))
       sh == Shifted(exp0, k, Len(r.prefix))
       exp == [sh EXCEPT !.src = r.prefix \o @] IN
   IF exp.src # r.src THEN [id |-> r.id, bind |-> "source-text-differs-from-document"]
+  ELSE IF r.unkn THEN [id |-> r.id, bind |-> "ok", feat |-> exp.feat, c19 |-> C19(exp, r.plain)]
   ELSE LET v == Verdict(exp, r.plain, r.map)
            allowed == {exp.items[m].ch : m \in {m \in 1..Len(exp.items) : exp.items[m].t \in {"c","f"}}}
            lk == Leak(r.plain, (Hidden \cup Markup) \ allowed) IN
        [id |-> r.id, bind |-> "ok", feat |-> exp.feat, c01 |-> v.c01, c02 |-> v.c02,
         c03 |-> IF v.c03 = "ok" /\ lk # "ok" THEN lk ELSE v.c03, c04 |-> v.c04, c05 |-> v.c05,
+        c08 |-> IF v.c01 # "ok" THEN "skipped" ELSE C08(exp, r.plain, r.map, r.diags),
+        c18 |-> IF ~r.extr THEN "skipped" ELSE IF v.c03 # "ok" THEN v.c03 ELSE IF lk # "ok" THEN lk ELSE v.c02,
         c10 |-> IF v.c01 # "ok" THEN "skipped" ELSE C10Walk(exp.fml, 1, r.plain, r.map, LangKey(r.lang), 0),
         c11 |-> IF v.c01 # "ok" THEN "skipped" ELSE C11Walk(exp.eqs, 1, r.plain, r.map, LangKey(r.lang), r.seqs, 0)]
 Next == cur <= Len(Recs) /\ cur' = cur + 1 /\ PrintT("@V" \o ToJson(Judge(Recs[cur])))
